@@ -641,7 +641,11 @@ func runES(sum *vhlib.Summary, evs []levent, cases *[]string) {
 		return
 	}
 	byCid := indexBy(obs, "cid")
+	earlier := map[string]bool{}
 	for i, e := range evs {
+		if i%batch == 0 {
+			earlier = map[string]bool{} // one bulk body
+		}
 		o := pickObs(byCid, e.Cid, wins[i])
 		ex := expect{cols: map[string]sv{"cid": {Kind: "s", S: e.Cid}, "message": {Kind: "s", S: e.Msg}}, exact: true}
 		for _, a := range e.Attrs {
@@ -656,7 +660,10 @@ func runES(sum *vhlib.Summary, evs []levent, cases *[]string) {
 		}
 		sum.Count("es/time_" + e.Time.Unit + "_" + e.Time.Form)
 		sum.Eval("es/"+e.Cid, true)
-		checkStored(sum, "es", e.Cid, ex, o, nil, map[string]interface{}{"protocol": "es_bulk", "event": e})
+		checkStored(sum, "es", e.Cid, ex, o, leakClass("es", earlier, ""), map[string]interface{}{"protocol": "es_bulk", "event": e})
+		for _, a := range e.Attrs {
+			earlier[a.K] = true
+		}
 		attrs := append([]kv{{"cid", sv{Kind: "s", S: e.Cid}}, {"message", sv{Kind: "s", S: e.Msg}}}, e.Attrs...)
 		*cases = append(*cases, fmt.Sprintf("(LEs %s %s, %s, %s)", e.Time.coqWire(), coqEvent(attrs), coqS(ix), o.coq()))
 		if i%40 == 0 {
@@ -707,7 +714,11 @@ func runHEC(sum *vhlib.Summary, evs []levent, cases *[]string) {
 		return
 	}
 	byCid := indexBy(obs, "event.cid")
+	earlier := map[string]bool{}
 	for i, e := range evs {
+		if i%batch == 0 {
+			earlier = map[string]bool{} // one HEC body
+		}
 		o := pickObs(byCid, e.Cid, wins[i])
 		ex := expect{cols: map[string]sv{"event.cid": {Kind: "s", S: e.Cid}, "event.message": {Kind: "s", S: e.Msg}, "index": {Kind: "s", S: ix}},
 			exact: true, timeKnown: "hec_time_ignored"}
@@ -728,31 +739,191 @@ func runHEC(sum *vhlib.Summary, evs []levent, cases *[]string) {
 		}
 		sum.Eval("hec/"+e.Cid, true)
 		sum.Count("hec/stream_" + e.Stream)
-		checkStored(sum, "hec", e.Cid, ex, o, nil, map[string]interface{}{"protocol": "splunk_hec", "event": e})
+		checkStored(sum, "hec", e.Cid, ex, o, leakClass("hec", earlier, ""), map[string]interface{}{"protocol": "splunk_hec", "event": e})
+		for k := range ex.cols {
+			earlier[k] = true
+		}
 		ev := append([]kv{{"cid", sv{Kind: "s", S: e.Cid}}, {"message", sv{Kind: "s", S: e.Msg}}}, e.Attrs...)
 		*cases = append(*cases, fmt.Sprintf("(LHec {| h_time := %s; h_index := %s; h_meta := %s; h_root := []; h_event := HObj %s |}, %s, %s)",
 			tm, coqS(ix), coqEvent(metaFs), coqEvent(ev), coqS(ix), o.coq()))
 	}
 }
 
-// ---------- OTLP logs ----------
-func runOTLPLogs(sum *vhlib.Summary, evs []levent, cases *[]string) {
-	const ix = "otel-logs"
-	wins := make([]window, len(evs))
-	for b := 0; b < len(evs); b += batch {
-		end := b + batch
-		if end > len(evs) {
-			end = len(evs)
+// ---------- OTLP export requests with several resources / scopes / records ----------
+// The plan of a request: 1-4 resources; the attribute lists shrink ("desc": later resources
+// LACK what earlier ones have) or grow ("asc"); some resources have no Resource message at all;
+// 1-3 scopes per resource (named+versioned+attributes, then bare, then no Scope message);
+// 1-3 records per scope.
+type planScope struct {
+	Name, Version string
+	Attrs         []kv
+	Nil           bool
+	Recs          []int // indices into the event list
+}
+type planRes struct {
+	Attrs  []kv
+	Nil    bool
+	Scopes []planScope
+}
+type planReq struct {
+	Shape string
+	Res   []planRes
+}
+
+func planRequests(r *vhlib.Rng, idxs []int, withService bool) []planReq {
+	var out []planReq
+	pos := 0
+	rq := 0
+	for pos < len(idxs) {
+		shape := []string{"desc", "asc", "single", "desc", "asc", "mixed"}[rq%6]
+		nres := r.Range(2, 4)
+		if shape == "single" {
+			nres = 1
 		}
+		req := planReq{Shape: shape}
+		for j := 0; j < nres && pos < len(idxs); j++ {
+			// service.name is the first attribute to go when the list shrinks
+			base := []kv{{"env", sv{Kind: "s", S: vhlib.Pick(r, []string{"prod", "dev", "qa"})}},
+				{"host.name", sv{Kind: "s", S: fmt.Sprintf("host%d_%d", rq, j)}},
+				{"service.name", sv{Kind: "s", S: fmt.Sprintf("svc%d_%d", rq, j)}}}
+			if !withService {
+				base[2].K = "service.namespace"
+			}
+			var keep int
+			switch shape {
+			case "desc":
+				keep = 3 - j
+			case "asc":
+				keep = j - (4 - nres) + 1
+				if nres == 4 {
+					keep = j
+				}
+			case "single":
+				keep = r.Range(0, 3)
+			default:
+				keep = r.Range(0, 3)
+			}
+			if keep < 0 {
+				keep = 0
+			}
+			if keep > 3 {
+				keep = 3
+			}
+			pr := planRes{}
+			switch {
+			case keep == 0 && r.Chance(50):
+				pr.Nil = true
+			case shape == "mixed" && keep > 0 && r.Chance(50):
+				pr.Attrs = base[3-keep:] // lacks env, keeps the later ones
+			default:
+				pr.Attrs = base[:keep]
+			}
+			nsc := r.Range(1, 3)
+			for k := 0; k < nsc && pos < len(idxs); k++ {
+				ps := planScope{}
+				kk := k
+				if shape == "asc" {
+					kk = nsc - 1 - k
+				}
+				switch kk {
+				case 0:
+					ps.Name, ps.Version = fmt.Sprintf("lib%d", rq), "v1.2"
+					ps.Attrs = []kv{{"scope.kind", sv{Kind: "s", S: "auto"}}}
+				case 1:
+					ps.Name = fmt.Sprintf("bare%d", rq)
+				default:
+					ps.Nil = true
+				}
+				nrec := r.Range(1, 3)
+				for q := 0; q < nrec && pos < len(idxs); q++ {
+					ps.Recs = append(ps.Recs, idxs[pos])
+					pos++
+				}
+				pr.Scopes = append(pr.Scopes, ps)
+			}
+			req.Res = append(req.Res, pr)
+		}
+		out = append(out, req)
+		rq++
+	}
+	return out
+}
+
+// designed events: all keys, then none, then all again (a later record LACKS what an earlier one has, and the reverse)
+func designedEvents() []levent {
+	var out []levent
+	full := func(tag string) []kv {
+		return []kv{{"k1", sv{Kind: "s", S: "full" + tag}}, {"status_code", sv{Kind: "i", I: 503}}, {"user", sv{Kind: "s", S: "u" + tag}},
+			{"a.b", sv{Kind: "i", I: 7}}, {"http.method", sv{Kind: "s", S: "PUT"}}, {"latency_ms", sv{Kind: "f", F: 12.5}},
+			{"n", sv{Kind: "i", I: -3}}, {"x_y", sv{Kind: "b", B: true}}, {"Region", sv{Kind: "s", S: "eu"}}, {"v2", sv{Kind: "f", F: 0.25}}}
+	}
+	for g := 0; g < 4; g++ {
+		for j := 0; j < 4; j++ {
+			e := levent{Cid: fmt.Sprintf("s%d_%d", g, j), Stream: "S", Msg: fmt.Sprintf("designed %d %d", g, j), Time: timeRep{Unit: "none"}}
+			if (j+g)%2 == 0 {
+				e.Attrs = full(e.Cid)
+				e.Res = []kv{{"service.name", sv{Kind: "s", S: "hostA"}}, {"host.name", sv{Kind: "s", S: "srcA"}}}
+				e.Trace = []byte{1, 2, 3, 4, 5, 6, 7, 8, 9, 10, 11, 12, 13, 14, 15, byte(16 + g*4 + j)}
+				e.Span = []byte{1, 2, 3, 4, 5, 6, 7, byte(8 + g*4 + j)}
+				e.TimeNs = 1650000000000000000 + uint64(g*4+j)*1000000007
+				e.Time = timeRep{"ns", "str", e.TimeNs}
+			}
+			out = append(out, e)
+		}
+	}
+	return out
+}
+
+func leakClass(proto string, earlier map[string]bool, fallback string) func(k string) string {
+	prev := map[string]bool{}
+	for k := range earlier {
+		prev[k] = true
+	}
+	return func(k string) string {
+		if prev[k] {
+			return proto + "_field_leaks_between_records"
+		}
+		return fallback
+	}
+}
+
+func (ps planScope) pb() *commonpb.InstrumentationScope {
+	if ps.Nil {
+		return nil
+	}
+	return &commonpb.InstrumentationScope{Name: ps.Name, Version: ps.Version, Attributes: otlpKVs(ps.Attrs)}
+}
+func (pr planRes) pb() *resourcepb.Resource {
+	if pr.Nil {
+		return nil
+	}
+	return &resourcepb.Resource{Attributes: otlpKVs(pr.Attrs)}
+}
+
+// ---------- OTLP logs ----------
+func runOTLPLogs(sum *vhlib.Summary, r *vhlib.Rng, evs []levent, cases *[]string) {
+	const ix = "otel-logs"
+	idxs := make([]int, len(evs))
+	for i := range evs {
+		idxs[i] = i
+	}
+	plans := planRequests(r, idxs, true)
+	wins := make([]window, len(evs))
+	for _, pl := range plans {
 		req := &collogpb.ExportLogsServiceRequest{}
-		for _, e := range evs[b:end] {
-			rec := &logpb.LogRecord{TimeUnixNano: e.TimeNs, ObservedTimeUnixNano: 0, SeverityNumber: 9, SeverityText: "INFO",
-				Body:       otlpAny(sv{Kind: "s", S: e.Msg}),
-				Attributes: otlpKVs(append([]kv{{"cid", sv{Kind: "s", S: e.Cid}}}, e.Attrs...)), Flags: 1, TraceId: e.Trace, SpanId: e.Span}
-			req.ResourceLogs = append(req.ResourceLogs, &logpb.ResourceLogs{
-				Resource:  &resourcepb.Resource{Attributes: otlpKVs(e.Res)},
-				SchemaUrl: "",
-				ScopeLogs: []*logpb.ScopeLogs{{Scope: &commonpb.InstrumentationScope{Name: "c16", Version: "v1"}, LogRecords: []*logpb.LogRecord{rec}}}})
+		for _, pr := range pl.Res {
+			rl := &logpb.ResourceLogs{Resource: pr.pb()}
+			for _, ps := range pr.Scopes {
+				sl := &logpb.ScopeLogs{Scope: ps.pb()}
+				for _, i := range ps.Recs {
+					e := evs[i]
+					sl.LogRecords = append(sl.LogRecords, &logpb.LogRecord{TimeUnixNano: e.TimeNs, SeverityNumber: 9, SeverityText: "INFO",
+						Body:       otlpAny(sv{Kind: "s", S: e.Msg}),
+						Attributes: otlpKVs(append([]kv{{"cid", sv{Kind: "s", S: e.Cid}}}, e.Attrs...)), Flags: 1, TraceId: e.Trace, SpanId: e.Span})
+				}
+				rl.ScopeLogs = append(rl.ScopeLogs, sl)
+			}
+			req.ResourceLogs = append(req.ResourceLogs, rl)
 		}
 		pb, _ := proto.Marshal(req)
 		lo := nowMs() - 1
@@ -762,8 +933,12 @@ func runOTLPLogs(sum *vhlib.Summary, evs []levent, cases *[]string) {
 		if ctx.Response.StatusCode() != 200 || len(ctx.Response.Body()) != 0 {
 			sum.HarnessError(fmt.Sprintf("otlp logs: status %d body %q", ctx.Response.StatusCode(), ctx.Response.Body()))
 		}
-		for i := b; i < end; i++ {
-			wins[i] = window{lo, hi}
+		for _, pr := range pl.Res {
+			for _, ps := range pr.Scopes {
+				for _, i := range ps.Recs {
+					wins[i] = window{lo, hi}
+				}
+			}
 		}
 	}
 	flushLogs()
@@ -773,36 +948,75 @@ func runOTLPLogs(sum *vhlib.Summary, evs []levent, cases *[]string) {
 		return
 	}
 	byCid := indexBy(obs, "attributes.cid")
-	for i, e := range evs {
-		o := pickObs(byCid, e.Cid, wins[i])
-		ex := expect{cols: map[string]sv{"attributes.cid": {Kind: "s", S: e.Cid}, "body": {Kind: "s", S: e.Msg},
-			"severity_text": {Kind: "s", S: "INFO"}, "severity_number": {Kind: "i", I: 9},
-			"scope.name": {Kind: "s", S: "c16"}, "scope.version": {Kind: "s", S: "v1"},
-			"trace_id": {Kind: "s", S: hex.EncodeToString(e.Trace)}, "span_id": {Kind: "s", S: hex.EncodeToString(e.Span)}},
-			timeKnown: "otlp_log_time_replaced"}
-		for _, a := range e.Attrs {
-			ex.cols["attributes."+a.K] = a.V
+	for pi, pl := range plans {
+		earlier := map[string]bool{}
+		var resTerms, obsTerms []string
+		for _, pr := range pl.Res {
+			var scTerms []string
+			for _, ps := range pr.Scopes {
+				var recTerms []string
+				for _, i := range ps.Recs {
+					e := evs[i]
+					o := pickObs(byCid, e.Cid, wins[i])
+					z := sv{Kind: "i", I: 0}
+					ex := expect{cols: map[string]sv{"attributes.cid": {Kind: "s", S: e.Cid}, "body": {Kind: "s", S: e.Msg},
+						"severity_text": {Kind: "s", S: "INFO"}, "severity_number": {Kind: "i", I: 9},
+						"scope.name": {Kind: "s", S: ps.Name}, "scope.version": {Kind: "s", S: ps.Version}, "scope.schema_url": {Kind: "s", S: ""},
+						"scope.dropped_attributes_count": z, "resource.dropped_attributes_count": z, "resource.schema_url": {Kind: "s", S: ""},
+						"dropped_attributes_count": z, "flags": {Kind: "i", I: 1}, "observed_time_unix_nano": z,
+						"time_unix_nano": {Kind: "i", I: int64(e.TimeNs)},
+						"trace_id": {Kind: "s", S: hex.EncodeToString(e.Trace)}, "span_id": {Kind: "s", S: hex.EncodeToString(e.Span)}},
+						exact: true, timeKnown: "otlp_log_time_replaced"}
+					own := map[string]bool{}
+					for _, a := range e.Attrs {
+						ex.cols["attributes."+a.K] = a.V
+					}
+					for _, a := range pr.Attrs {
+						ex.cols["resource.attributes."+a.K] = a.V
+					}
+					for _, a := range ps.Attrs {
+						ex.cols["scope.attributes."+a.K] = a.V
+					}
+					for k := range ex.cols {
+						own[k] = true
+					}
+					if e.TimeNs != 0 {
+						ex.carried = e.TimeNs / 1000000
+					}
+					sum.Eval("otlp_log/"+e.Cid, true)
+					sum.Count("otlp_log/stream_" + e.Stream)
+					sum.Count("otlp_log/request_" + pl.Shape)
+					c := map[string]interface{}{"protocol": "otlp_logs", "event": e, "request": pl}
+					// scope name / version of an earlier scope showing up on a record of a bare or absent scope
+					if got, ok := o.st.fields["scope.name"]; ok && o.found > 0 && got.S != ps.Name && earlier["scope.name="+got.S] {
+						fail(sum, "otlp_log_scope_inherited_from_previous_scope", fmt.Sprintf("otlp_log: record %s belongs to scope %q, stored scope.name=%q of an earlier scope of the request", e.Cid, ps.Name, got.S), c)
+						ex.cols["scope.name"] = got // reported once, under its own class
+					}
+					checkStored(sum, "otlp_log", e.Cid, ex, o, leakClass("otlp_log", earlier, ""), c)
+					for k := range own {
+						if strings.Contains(k, "attributes.") {
+							earlier[k] = true
+						}
+					}
+					earlier["scope.name="+ps.Name] = true
+					attrs := append([]kv{{"cid", sv{Kind: "s", S: e.Cid}}}, e.Attrs...)
+					recTerms = append(recTerms, fmt.Sprintf("mk_rec %d 9%%Z (s2b \"INFO\") (SStr %s) %s 1 %s %s", e.TimeNs, coqS(e.Msg), coqEvent(attrs),
+						coqS(hex.EncodeToString(e.Trace)), coqS(hex.EncodeToString(e.Span))))
+					obsTerms = append(obsTerms, o.coq())
+				}
+				scTerms = append(scTerms, fmt.Sprintf("(mk_scope %s %s %s, %s)", coqS(ps.Name), coqS(ps.Version), coqEvent(ps.Attrs), vhlib.CoqList(recTerms)))
+			}
+			resTerms = append(resTerms, fmt.Sprintf("(mk_res %s, %s)", coqEvent(pr.Attrs), vhlib.CoqList(scTerms)))
 		}
-		for _, a := range e.Res {
-			ex.cols["resource.attributes."+a.K] = a.V
+		*cases = append(*cases, fmt.Sprintf("(%s, %s)", vhlib.CoqList(resTerms), vhlib.CoqList(obsTerms)))
+		if pi%12 == 1 {
+			sum.Sample(map[string]interface{}{"protocol": "otlp_logs", "request": pl})
 		}
-		if e.TimeNs != 0 {
-			ex.carried = e.TimeNs / 1000000
-			ex.cols["time_unix_nano"] = sv{Kind: "i", I: int64(e.TimeNs)}
-		}
-		sum.Eval("otlp_log/"+e.Cid, true)
-		sum.Count("otlp_log/stream_" + e.Stream)
-		checkStored(sum, "otlp_log", e.Cid, ex, o, nil, map[string]interface{}{"protocol": "otlp_logs", "event": e})
-		attrs := append([]kv{{"cid", sv{Kind: "s", S: e.Cid}}}, e.Attrs...)
-		*cases = append(*cases, fmt.Sprintf("(LOtlp {| r_attrs := %s; r_dropped := 0; r_schema := [] |} "+
-			"{| sc_name := s2b \"c16\"; sc_version := s2b \"v1\"; sc_attrs := []; sc_dropped := 0; sc_schema := [] |} "+
-			"{| o_time := %d; o_observed := 0; o_sevnum := 9%%Z; o_sevtext := s2b \"INFO\"; o_body := SStr %s; o_attrs := %s; o_dropped := 0; o_flags := 1; o_trace := %s; o_span := %s |}, %s, %s)",
-			coqEvent(e.Res), e.TimeNs, coqS(e.Msg), coqEvent(attrs), coqS(hex.EncodeToString(e.Trace)), coqS(hex.EncodeToString(e.Span)), coqS(ix), o.coq()))
 	}
 }
 
 // ---------- OTLP traces ----------
-func runSpans(sum *vhlib.Summary, evs []levent, cases *[]string) {
+func runSpans(sum *vhlib.Summary, r *vhlib.Rng, evs []levent, cases *[]string) {
 	const ix = "traces"
 	wins := make([]window, len(evs))
 	var use []int
@@ -811,20 +1025,22 @@ func runSpans(sum *vhlib.Summary, evs []levent, cases *[]string) {
 			use = append(use, i)
 		}
 	}
-	for b := 0; b < len(use); b += batch {
-		end := b + batch
-		if end > len(use) {
-			end = len(use)
-		}
+	plans := planRequests(r, use, true)
+	for _, pl := range plans {
 		req := &coltracepb.ExportTraceServiceRequest{}
-		for _, i := range use[b:end] {
-			e := evs[i]
-			sp := &tracepb.Span{TraceId: e.Trace, SpanId: e.Span, Name: e.Msg, Kind: tracepb.Span_SpanKind(1 + i%5),
-				StartTimeUnixNano: e.TimeNs, EndTimeUnixNano: e.TimeNs + 1500000, Status: &tracepb.Status{Code: tracepb.Status_StatusCode(i % 3)},
-				Attributes: otlpKVs(append([]kv{{"cid", sv{Kind: "s", S: e.Cid}}}, e.Attrs...))}
-			req.ResourceSpans = append(req.ResourceSpans, &tracepb.ResourceSpans{
-				Resource:   &resourcepb.Resource{Attributes: []*commonpb.KeyValue{{Key: "service.name", Value: otlpAny(sv{Kind: "s", S: "svc" + e.Cid})}}},
-				ScopeSpans: []*tracepb.ScopeSpans{{Spans: []*tracepb.Span{sp}}}})
+		for _, pr := range pl.Res {
+			rs := &tracepb.ResourceSpans{Resource: pr.pb()}
+			for _, ps := range pr.Scopes {
+				ss := &tracepb.ScopeSpans{Scope: ps.pb()}
+				for _, i := range ps.Recs {
+					e := evs[i]
+					ss.Spans = append(ss.Spans, &tracepb.Span{TraceId: e.Trace, SpanId: e.Span, Name: e.Msg, Kind: tracepb.Span_SpanKind(1 + i%5),
+						StartTimeUnixNano: e.TimeNs, EndTimeUnixNano: e.TimeNs + 1500000, Status: &tracepb.Status{Code: tracepb.Status_StatusCode(i % 3)},
+						Attributes: otlpKVs(append([]kv{{"cid", sv{Kind: "s", S: e.Cid}}}, e.Attrs...))})
+				}
+				rs.ScopeSpans = append(rs.ScopeSpans, ss)
+			}
+			req.ResourceSpans = append(req.ResourceSpans, rs)
 		}
 		pb, _ := proto.Marshal(req)
 		lo := nowMs() - 1
@@ -834,8 +1050,12 @@ func runSpans(sum *vhlib.Summary, evs []levent, cases *[]string) {
 		if ctx.Response.StatusCode() != 200 {
 			sum.HarnessError(fmt.Sprintf("otlp traces: status %d", ctx.Response.StatusCode()))
 		}
-		for _, i := range use[b:end] {
-			wins[i] = window{lo, hi}
+		for _, pr := range pl.Res {
+			for _, ps := range pr.Scopes {
+				for _, i := range ps.Recs {
+					wins[i] = window{lo, hi}
+				}
+			}
 		}
 	}
 	flushLogs()
@@ -845,24 +1065,64 @@ func runSpans(sum *vhlib.Summary, evs []levent, cases *[]string) {
 		return
 	}
 	byCid := indexBy(obs, "cid")
-	for _, i := range use {
-		e := evs[i]
-		o := pickObs(byCid, e.Cid, wins[i])
-		ex := expect{cols: map[string]sv{"cid": {Kind: "s", S: e.Cid}, "name": {Kind: "s", S: e.Msg}, "service": {Kind: "s", S: "svc" + e.Cid},
-			"trace_id": {Kind: "s", S: hex.EncodeToString(e.Trace)}, "span_id": {Kind: "s", S: hex.EncodeToString(e.Span)},
-			"start_time": {Kind: "i", I: int64(e.TimeNs)}, "end_time": {Kind: "i", I: int64(e.TimeNs + 1500000)}, "duration": {Kind: "i", I: 1500000}},
-			timeKnown: "otlp_span_time_replaced", carried: e.TimeNs / 1000000}
-		for _, a := range e.Attrs {
-			ex.cols[a.K] = a.V
+	for pi, pl := range plans {
+		var resTerms, obsTerms []string
+		var prevServices []string
+		earlier := map[string]bool{}
+		for _, pr := range pl.Res {
+			service := ""
+			for _, a := range pr.Attrs {
+				if a.K == "service.name" {
+					service = a.V.S
+				}
+			}
+			var spanTerms []string
+			for _, ps := range pr.Scopes {
+				for _, i := range ps.Recs {
+					e := evs[i]
+					o := pickObs(byCid, e.Cid, wins[i])
+					z := sv{Kind: "i", I: 0}
+					ex := expect{cols: map[string]sv{"cid": {Kind: "s", S: e.Cid}, "name": {Kind: "s", S: e.Msg}, "service": {Kind: "s", S: service},
+						"trace_id": {Kind: "s", S: hex.EncodeToString(e.Trace)}, "span_id": {Kind: "s", S: hex.EncodeToString(e.Span)},
+						"parent_span_id": {Kind: "s", S: ""}, "trace_state": {Kind: "s", S: ""},
+						"start_time": {Kind: "i", I: int64(e.TimeNs)}, "end_time": {Kind: "i", I: int64(e.TimeNs + 1500000)}, "duration": {Kind: "i", I: 1500000},
+						"dropped_attributes_count": z, "dropped_events_count": z, "dropped_links_count": z,
+						"events": {Kind: "s", S: "null"}, "links": {Kind: "s", S: "[]"},
+						"kind": {Kind: "s", S: tracepb.Span_SpanKind(1 + i%5).String()}, "status": {Kind: "s", S: tracepb.Status_StatusCode(i % 3).String()}},
+						exact: true, timeKnown: "otlp_span_time_replaced", carried: e.TimeNs / 1000000}
+					for _, a := range e.Attrs {
+						ex.cols[a.K] = a.V
+					}
+					sum.Eval("otlp_span/"+e.Cid, true)
+					sum.Count("otlp_span/events")
+					sum.Count("otlp_span/request_" + pl.Shape)
+					c := map[string]interface{}{"protocol": "otlp_traces", "event": e, "own_service": service, "request": pl}
+					if got, ok := o.st.fields["service"]; ok && o.found > 0 && got.S != service {
+						for _, p := range prevServices {
+							if p == got.S && p != "" {
+								fail(sum, "otlp_trace_service_inherited_from_previous_resource",
+									fmt.Sprintf("otlp_span: span %s belongs to a resource with service.name %q, stored service=%q is the service of an earlier resource of the same export request", e.Cid, service, got.S), c)
+								ex.cols["service"] = got // reported once, under its own class
+							}
+						}
+					}
+					checkStored(sum, "otlp_span", e.Cid, ex, o, leakClass("otlp_span", earlier, ""), c)
+					for _, a := range e.Attrs {
+						earlier[a.K] = true
+					}
+					attrs := append([]kv{{"cid", sv{Kind: "s", S: e.Cid}}}, e.Attrs...)
+					spanTerms = append(spanTerms, fmt.Sprintf("mk_span %s %s [] %s %d %d %d %d %s", coqS(hex.EncodeToString(e.Trace)), coqS(hex.EncodeToString(e.Span)),
+						coqS(e.Msg), 1+i%5, e.TimeNs, e.TimeNs+1500000, i%3, coqEvent(attrs)))
+					obsTerms = append(obsTerms, o.coq())
+				}
+			}
+			prevServices = append(prevServices, service)
+			resTerms = append(resTerms, fmt.Sprintf("{| rs_attrs := %s; rs_spans := %s |}", coqEvent(pr.Attrs), vhlib.CoqList(spanTerms)))
 		}
-		sum.Eval("otlp_span/"+e.Cid, true)
-		sum.Count("otlp_span/events")
-		checkStored(sum, "otlp_span", e.Cid, ex, o, nil, map[string]interface{}{"protocol": "otlp_traces", "event": e})
-		attrs := append([]kv{{"cid", sv{Kind: "s", S: e.Cid}}}, e.Attrs...)
-		*cases = append(*cases, fmt.Sprintf("(LSpan {| sp_trace := %s; sp_span := %s; sp_parent := []; sp_service := %s; sp_state := []; sp_name := %s; sp_kind := %d; "+
-			"sp_start := %d; sp_end := %d; sp_datt := 0; sp_dev := 0; sp_dlink := 0; sp_status := Some %d; sp_attrs := %s |}, %s, %s)",
-			coqS(hex.EncodeToString(e.Trace)), coqS(hex.EncodeToString(e.Span)), coqS("svc"+e.Cid), coqS(e.Msg), 1+i%5,
-			e.TimeNs, e.TimeNs+1500000, i%3, coqEvent(attrs), coqS(ix), o.coq()))
+		*cases = append(*cases, fmt.Sprintf("(%s, %s)", vhlib.CoqList(resTerms), vhlib.CoqList(obsTerms)))
+		if pi%12 == 1 {
+			sum.Sample(map[string]interface{}{"protocol": "otlp_traces", "request": pl})
+		}
 	}
 }
 
@@ -1331,51 +1591,104 @@ func runMetrics(cfg vhlib.Config, sum *vhlib.Summary, r *vhlib.Rng) {
 			pts = append(pts, m)
 		}
 	}
-	// ---- ingest through the three handlers ----
+	// ---- ingest through the three handlers: several points per request; the tag lists of
+	// neighbouring points differ (a later point LACKS a tag an earlier one has, and the reverse) ----
+	group := map[string]int{} // cid -> request number
+	prevTags := map[string]map[string]bool{}
+	byProto := map[string][]mpoint{}
 	for _, m := range pts {
-		switch m.Proto {
-		case "otsdb":
-			ts := m.Wire
-			if strings.HasSuffix(m.Form, "str") {
-				ts = `"` + ts + `"`
+		byProto[m.Proto] = append(byProto[m.Proto], m)
+	}
+	reqNo := 0
+	for _, p := range []string{"otsdb", "prom", "otlp"} {
+		l := byProto[p]
+		for pos := 0; pos < len(l); {
+			k := r.Range(1, 4)
+			if pos+k > len(l) {
+				k = len(l) - pos
 			}
-			tg := map[string]string{}
-			for _, t := range m.Tags {
-				tg[t.K] = t.V.S
+			g := l[pos : pos+k]
+			pos += k
+			reqNo++
+			seen := map[string]bool{}
+			for _, m := range g {
+				group[m.Cid] = reqNo
+				prev := map[string]bool{}
+				for t := range seen {
+					prev[t] = true
+				}
+				prevTags[m.Cid] = prev
+				for _, t := range m.Tags {
+					seen[t.K] = true
+				}
 			}
-			tb, _ := json.Marshal(tg)
-			body := `[{"metric":"` + m.Name + `","tags":` + string(tb) + `,"timestamp":` + ts + `,"value":` + strconv.FormatFloat(m.Val, 'f', -1, 64) + `}]`
-			ok, bad, err := otsdbw.HandlePutMetrics([]byte(body), 0)
-			if err != nil || ok != 1 || bad != 0 {
-				sum.HarnessError(fmt.Sprintf("otsdb put %s: ok=%d failed=%d err=%v", body, ok, bad, err))
-			}
-		case "prom":
-			w, _ := strconv.ParseInt(m.Wire, 10, 64)
-			lbl := []prompb.Label{{Name: "__name__", Value: m.Name}}
-			for _, t := range m.Tags {
-				lbl = append(lbl, prompb.Label{Name: t.K, Value: t.V.S})
-			}
-			wr := &prompb.WriteRequest{Timeseries: []prompb.TimeSeries{{Labels: lbl, Samples: []prompb.Sample{{Value: m.Val, Timestamp: w}}}}}
-			pbb, _ := gogoproto.Marshal(wr)
-			ok, bad, err := promw.HandlePutMetrics(snappy.Encode(nil, pbb), 0)
-			if err != nil || ok != 1 || bad != 0 {
-				sum.HarnessError(fmt.Sprintf("remote write %s: ok=%d failed=%d err=%v", m.Cid, ok, bad, err))
-			}
-		case "otlp":
-			w, _ := strconv.ParseUint(m.Wire, 10, 64)
-			dp := &metricspb.NumberDataPoint{TimeUnixNano: w, Attributes: otlpKVs(m.Tags)}
-			if m.AsInt {
-				dp.Value = &metricspb.NumberDataPoint_AsInt{AsInt: m.IntV}
-			} else {
-				dp.Value = &metricspb.NumberDataPoint_AsDouble{AsDouble: m.Val}
-			}
-			req := &colmetricspb.ExportMetricsServiceRequest{ResourceMetrics: []*metricspb.ResourceMetrics{{ScopeMetrics: []*metricspb.ScopeMetrics{{
-				Metrics: []*metricspb.Metric{{Name: m.Name, Data: &metricspb.Metric_Gauge{Gauge: &metricspb.Gauge{DataPoints: []*metricspb.NumberDataPoint{dp}}}}}}}}}}
-			pb, _ := proto.Marshal(req)
-			ctx := mkctx(pb, "application/x-protobuf")
-			otlp.ProcessMetricsIngest(ctx, 0)
-			if ctx.Response.StatusCode() != 200 {
-				sum.HarnessError(fmt.Sprintf("otlp metrics %s: status %d", m.Cid, ctx.Response.StatusCode()))
+			sum.Count(fmt.Sprintf("metric/%s/points_per_request_%d", p, k))
+			switch p {
+			case "otsdb":
+				var items []string
+				for _, m := range g {
+					ts := m.Wire
+					if strings.HasSuffix(m.Form, "str") {
+						ts = `"` + ts + `"`
+					}
+					tg := map[string]string{}
+					for _, t := range m.Tags {
+						tg[t.K] = t.V.S
+					}
+					tb, _ := json.Marshal(tg)
+					items = append(items, `{"metric":"`+m.Name+`","tags":`+string(tb)+`,"timestamp":`+ts+`,"value":`+strconv.FormatFloat(m.Val, 'f', -1, 64)+`}`)
+				}
+				body := "[" + strings.Join(items, ",") + "]"
+				ok, bad, err := otsdbw.HandlePutMetrics([]byte(body), 0)
+				if err != nil || int(ok) != len(g) || bad != 0 {
+					sum.HarnessError(fmt.Sprintf("otsdb put %s: ok=%d failed=%d err=%v", body, ok, bad, err))
+				}
+			case "prom":
+				wr := &prompb.WriteRequest{}
+				for _, m := range g {
+					w, _ := strconv.ParseInt(m.Wire, 10, 64)
+					lbl := []prompb.Label{{Name: "__name__", Value: m.Name}}
+					for _, t := range m.Tags {
+						lbl = append(lbl, prompb.Label{Name: t.K, Value: t.V.S})
+					}
+					wr.Timeseries = append(wr.Timeseries, prompb.TimeSeries{Labels: lbl, Samples: []prompb.Sample{{Value: m.Val, Timestamp: w}}})
+				}
+				pbb, _ := gogoproto.Marshal(wr)
+				ok, bad, err := promw.HandlePutMetrics(snappy.Encode(nil, pbb), 0)
+				if err != nil || int(ok) != len(g) || bad != 0 {
+					sum.HarnessError(fmt.Sprintf("remote write %s..: ok=%d failed=%d err=%v", g[0].Cid, ok, bad, err))
+				}
+			case "otlp":
+				// points spread over resources / scopes / metrics of one export request
+				req := &colmetricspb.ExportMetricsServiceRequest{}
+				for j, m := range g {
+					w, _ := strconv.ParseUint(m.Wire, 10, 64)
+					dp := &metricspb.NumberDataPoint{TimeUnixNano: w, Attributes: otlpKVs(m.Tags)}
+					if m.AsInt {
+						dp.Value = &metricspb.NumberDataPoint_AsInt{AsInt: m.IntV}
+					} else {
+						dp.Value = &metricspb.NumberDataPoint_AsDouble{AsDouble: m.Val}
+					}
+					mt := &metricspb.Metric{Name: m.Name, Data: &metricspb.Metric_Gauge{Gauge: &metricspb.Gauge{DataPoints: []*metricspb.NumberDataPoint{dp}}}}
+					switch {
+					case j == 0 || reqNo%3 == 0: // new resource
+						req.ResourceMetrics = append(req.ResourceMetrics, &metricspb.ResourceMetrics{ScopeMetrics: []*metricspb.ScopeMetrics{{Metrics: []*metricspb.Metric{mt}}}})
+					case reqNo%3 == 1: // new scope of the last resource
+						rm := req.ResourceMetrics[len(req.ResourceMetrics)-1]
+						rm.ScopeMetrics = append(rm.ScopeMetrics, &metricspb.ScopeMetrics{Metrics: []*metricspb.Metric{mt}})
+					default: // another data point of the same gauge
+						rm := req.ResourceMetrics[len(req.ResourceMetrics)-1]
+						sm := rm.ScopeMetrics[len(rm.ScopeMetrics)-1]
+						gg := sm.Metrics[len(sm.Metrics)-1].GetGauge()
+						gg.DataPoints = append(gg.DataPoints, dp)
+					}
+				}
+				pb, _ := proto.Marshal(req)
+				ctx := mkctx(pb, "application/x-protobuf")
+				otlp.ProcessMetricsIngest(ctx, 0)
+				if ctx.Response.StatusCode() != 200 {
+					sum.HarnessError(fmt.Sprintf("otlp metrics %s..: status %d", g[0].Cid, ctx.Response.StatusCode()))
+				}
 			}
 		}
 	}
@@ -1447,6 +1760,24 @@ func runMetrics(cfg vhlib.Config, sum *vhlib.Summary, r *vhlib.Rng) {
 						fail(sum, cl, fmt.Sprintf("%s: datapoint %s: tag %q sent %q stored %q (stored tags %v)", p, m.Cid, t.K, tagStr(t.V), v, o.tags), c)
 					}
 				}
+				ownCols := map[string]bool{}
+				for _, t := range m.Tags {
+					ownCols[col(t.K)] = true
+				}
+				var extraTags []string
+				for k := range o.tags {
+					if !ownCols[k] {
+						extraTags = append(extraTags, k)
+					}
+				}
+				sort.Strings(extraTags)
+				for _, k := range extraTags {
+					cl := p + "_metric_tag_extra"
+					if prevTags[m.Cid][k] {
+						cl = p + "_metric_tag_leaks_between_points"
+					}
+					fail(sum, cl, fmt.Sprintf("%s: datapoint %s (request %d): stored tag %q=%q was not part of the point", p, m.Cid, group[m.Cid], k, o.tags[k]), c)
+				}
 				if math.Float64bits(o.val) != math.Float64bits(m.Val) {
 					cl := p + "_metric_value_altered"
 					if p == "otlp" && m.AsInt && o.val == 0 {
@@ -1497,8 +1828,12 @@ func writeSharded(cfg vhlib.Config, sum *vhlib.Summary, name, typ, expr string, 
 		if end > len(terms) {
 			end = len(terms)
 		}
-		sum.WriteCaseFile(cfg.Out, fmt.Sprintf("%s_%d", name, s), caseImports,
-			"Definition cases : "+typ+" := "+vhlib.CoqListNL(terms[s*per:end])+".\n", expr, end-s*per)
+		body := vhlib.CoqListNL(terms[s*per:end])
+		n := strings.Count(body, "mk_lobs") // one stored record each
+		if n == 0 {
+			n = end - s*per
+		}
+		sum.WriteCaseFile(cfg.Out, fmt.Sprintf("%s_%d", name, s), caseImports, "Definition cases : "+typ+" := "+body+".\n", expr, n)
 	}
 }
 
@@ -1533,13 +1868,17 @@ func main() {
 	for i := 0; i < nB; i++ {
 		evs = append(evs, genEvent(rb, i, "B"))
 	}
-	var logCases []string
+	// designed sequences: an event with every key, then one with none, then every key again
+	evs = append(evs, designedEvents()...)
+	var logCases, logReqCases, traceReqCases []string
 	esEvs := append(append([]levent{}, evs...), boundaryEvents()...)
 	runES(sum, esEvs, &logCases)
 	runHEC(sum, evs, &logCases)
-	runOTLPLogs(sum, evs, &logCases)
-	runSpans(sum, evs, &logCases)
 	writeSharded(cfg, sum, "cases_logs", "list (lcase * list N * lobs)", "check_logs cases", logCases, 120)
+	runOTLPLogs(sum, r.Fork(), evs, &logReqCases)
+	writeSharded(cfg, sum, "cases_otlp_logs", "list (list res_logs * list lobs)", "check_logs_reqs (s2b \"otel-logs\") cases", logReqCases, 12)
+	runSpans(sum, r.Fork(), evs, &traceReqCases)
+	writeSharded(cfg, sum, "cases_otlp_traces", "list (list res_spans * list lobs)", "check_trace_reqs (s2b \"traces\") cases", traceReqCases, 12)
 
 	var streams []lokiStream
 	rl, rlb := r.Fork(), r.Fork()
